@@ -131,6 +131,54 @@ def run_add_labor_cost_flags(ctx, n):
     _finish(ctx, "add_labor_cost_flags", cnt, "BaseOrganization.add_labor_cost called directly with all eight flag combinations on paused projects (real code only)")
 
 
+# ---- C07: level sums after class-level inserts with unsorted index lists ------------------------------------------------
+
+def run_cost_sums_after_class_inserts(ctx, n):
+    cnt = dict(cases=0, violations=0, exceptions=0)
+    for i in range(n):
+        rng, spec, params = _case(ctx.seed, i, 89)
+        case = dict(stream="cost-sums-after-class-inserts", seed=ctx.seed, index=i, spec=spec, params=dict(params, maxTime=40))
+        try:
+            project = build(spec)
+            real_simulate(project, dict(params, maxTime=40, absence=[]))
+            T = project.time
+            if T < 3:
+                continue
+            L = rng.sample(range(0, T), rng.randint(2, min(4, T)))     # distinct, in any order
+            target = rng.choice(["organization", "teams"])
+            org = project.organization
+            if target == "organization":
+                org.insert_absence_time_list(list(L))
+            else:
+                for part in list(org.team_list) + list(org.workplace_list):
+                    part.insert_absence_time_list(list(L))
+            bad = None
+            for t_ in org.team_list:
+                for k in range(len(t_.cost_list)):
+                    ws = [w.cost_list[k] for w in t_.worker_list if k < len(w.cost_list)]
+                    if len(ws) == len(t_.worker_list) and abs(t_.cost_list[k] - sum(ws)) > 1e-9 and bad is None:
+                        bad = "after insert_absence_time_list(%s) on %s: team %s cost %r at step %d, its workers sum to %r" % (L, target, t_.name, t_.cost_list[k], k, sum(ws))
+            for q_ in org.workplace_list:
+                for k in range(len(q_.cost_list)):
+                    fs = [f.cost_list[k] for f in q_.facility_list if k < len(f.cost_list)]
+                    if len(fs) == len(q_.facility_list) and abs(q_.cost_list[k] - sum(fs)) > 1e-9 and bad is None:
+                        bad = "after insert_absence_time_list(%s) on %s: workplace %s cost %r at step %d, its facilities sum to %r" % (L, target, q_.name, q_.cost_list[k], k, sum(fs))
+            if target == "organization":
+                for k in range(len(org.cost_list)):
+                    parts = [x.cost_list[k] for x in list(org.team_list) + list(org.workplace_list) if k < len(x.cost_list)]
+                    if len(parts) == len(org.team_list) + len(org.workplace_list) and abs(org.cost_list[k] - sum(parts)) > 1e-9 and bad is None:
+                        bad = "after insert_absence_time_list(%s) on the organization: organization cost %r at step %d, teams and workplaces sum to %r" % (L, org.cost_list[k], k, sum(parts))
+        except Exception as e:
+            cnt["exceptions"] += 1
+            ctx.violations.append(dict(property=ctx.pid, what="class-level insert raised %s: %s" % (type(e).__name__, e), case=case))
+            continue
+        cnt["cases"] += 1
+        if bad:
+            cnt["violations"] += 1
+            ctx.violations.append(dict(property=ctx.pid, what=bad, case=case))
+    _finish(ctx, "cost_sums_after_class_inserts", cnt, "insert_absence_time_list called directly on the organization or on its teams and workplaces with distinct indices in any order (real code only): every level's cost entry is still the sum of the level below at every step")
+
+
 # ---- C18: class-level edits with repeated indices ------------------------------------------------------------------
 
 def _org_lengths(project):
@@ -212,6 +260,8 @@ def run_placement_logs_after_insert(ctx, n):
             hot = sorted(set(k for c in ix.comps for k in range(1, len(c.state_record_list))
                              if c.state_record_list[k] != c.state_record_list[k - 1]))
             L = sorted(set(rng.choice(hot or [1]) for _ in range(rng.randint(1, 2))))
+            if rng.random() < 0.4:
+                L = sorted(set(L + [0]))              # a non-working step before the first recorded one
             base = snapshot(project, ix)
             project.insert_absence_time_list(list(L))
             st = snapshot(project, ix)
